@@ -10,7 +10,9 @@ PROPS = {
         "level_text": "postconditions and frames of the price/quote/statistics functions proved for all inputs from the real AST",
         "level_note": COMMON_NOTE,
         "tasks": ["Market._update_market_price", "Market._add_order", "Market._cancel_order", "Market._execute_orders", "Market._update_time", "Market.get_vwap", "Market._fill_until"],
-        "not_decided": ["per-price depth view OrderBook.get_price_volume (set/sort/dict idioms outside the subset): only exercised by the run-time monitors of the thorough tier"],
+        "bounded": [{"name": "per-price depth view (OrderBook.get_price_volume, Market.get_buy/sell_order_book) against an independent oracle after every event", "replayer": "depth",
+                     "bound": "1500 (quick) / 20000 (thorough) seeded random single-market histories (<= 40 events; ties, market orders, cancels, expiries, off-grid prices)", "timeout": 900}],
+        "not_decided": ["per-price depth view OrderBook.get_price_volume (set/sort/dict idioms outside the subset): bounded stand-in only"],
         "assumptions": [],
     },
     "C14": {
